@@ -169,9 +169,16 @@ def run_case(rng, idx, tier):
         bf = fu[cnt == 1]
         if len(bf):
             tri = uniq[bf]                                           # (m,3,3)
-            d = np.einsum("fk,mjk->mfj", eq[:, :3], tri) + eq[None, :, 3, None]   # (m, facets, 3)
-            on_hull = np.any(np.all(np.abs(d) <= 1e-9 * L, axis=2), axis=1)
-            nb = int(np.sum(~on_hull))
+            if len(tri) * len(eq) > 2e8:
+                # fine meshes of the thorough tier (70 000 boundary faces x 70 000 hull facets): judge a random sample
+                tri = tri[rng.permutation(len(tri))[:max(200, int(2e8 // len(eq)))]]
+                ev["boundary_faces_sampled"] = ev.get("boundary_faces_sampled", 0) + 1
+            nb = 0
+            step = max(1, int(1e7 // (len(eq) * 3)))
+            for i0 in range(0, len(tri), step):                      # chunks bound the (m, facets, 3) work array
+                d = np.einsum("fk,mjk->mfj", eq[:, :3], tri[i0:i0 + step]) + eq[None, :, 3, None]
+                on_hull = np.any(np.all(np.abs(d) <= 1e-9 * L, axis=2), axis=1)
+                nb += int(np.sum(~on_hull))
             if nb:
                 bad("unpaired-interior-face", float(nb), "%d faces belong to one tetrahedron only but are not on the hull boundary (gap / overlap)" % nb)
     # 5. coverage sampling
